@@ -140,7 +140,7 @@ func runHistory(hc histCase, engine int) *histResult {
 		if err != nil {
 			h.violate("host-tree:walk-error", err.Error())
 		} else if d := diffTrees(h.m.snapshot(), got); d != "" {
-			h.violate("host-tree:differs-from-model:after:"+h.lastOp, d)
+			h.violate("host-tree:differs-from-model", d+" (last operation: "+h.lastOp+")")
 		}
 	}
 	sum := sha256.Sum256([]byte(strings.Join(h.shape, ",")))
@@ -301,7 +301,7 @@ func (h *hist) check(fn, scen, desc string, got uint32, want exp) (bool, bool) {
 		return true, false
 	}
 	if !ok {
-		key := scen
+		key := sigScen(scen)
 		if want.why != "" {
 			key = want.why
 		}
@@ -318,6 +318,24 @@ func (h *hist) check(fn, scen, desc string, got uint32, want exp) (bool, bool) {
 	return got == 0, true
 }
 
+// incidental scenario tokens: they describe how a case was reached, not which
+// rule of the model decides it, and are left out of signatures so that one
+// root cause gives one signature.
+var incidental = map[string]bool{"reuses-closed-fd": true, "via-dirfd": true, "open-source": true, "open-target": true, "open": true,
+	"short": true, "at-or-past-eof": true, "below-offset": true, "open-fd": true, "closed-fd": true, "hinted": true,
+	"whence=0": true, "whence=1": true, "whence=2": true}
+
+func sigScen(scen string) string {
+	var keep []string
+	for i, t := range strings.Split(scen, ":") {
+		if incidental[t] || (i > 0 && t == "dir") {
+			continue
+		}
+		keep = append(keep, t)
+	}
+	return strings.Join(keep, ":")
+}
+
 // mismatch records a wrong output of a call whose errno was as expected.
 func (h *hist) mismatch(fn, scen, what, detail string) {
 	if h.staleDir != "" && fn == "fd_readdir" && what == "listing-differs-from-model" {
@@ -325,7 +343,11 @@ func (h *hist) mismatch(fn, scen, what, detail string) {
 			detail+": the descriptor refers to a directory that was "+h.staleDir+" after it was opened")
 		return
 	}
-	h.violate(fmt.Sprintf("%s:%s:%s", fn, scen, what), detail)
+	if what == "fd-not-lowest-free" {
+		h.violate(fn+":"+what, detail)
+		return
+	}
+	h.violate(fmt.Sprintf("%s:%s:%s", fn, sigScen(scen), what), detail)
 }
 
 func fdArg(fd int32) uint64 { return uint64(uint32(fd)) }
@@ -683,6 +705,9 @@ func (h *hist) probeFd(fd int32, after string) {
 	if h.stop || fd < firstFreeFd {
 		return
 	}
+	stale := h.staleDir
+	h.staleDir = ""
+	defer func() { h.staleDir = stale }()
 	o := h.m.fds[fd]
 	got := h.g.call("fd_filestat_get", fdArg(fd), offResult)
 	if o == nil {
@@ -711,7 +736,7 @@ func (h *hist) probeFd(fd int32, after string) {
 			wantFt = ftDir
 		}
 		if ft != wantFt || (!o.ino.isDir && size != uint64(len(o.ino.data))) {
-			h.violate(after+":then:fd_filestat_get:wrong-file",
+			h.violate(sigScen(after)+":then:fd_filestat_get:wrong-file",
 				fmt.Sprintf("after %s fd_filestat_get(%d) gives filetype=%d size=%d, the model says filetype=%d size=%d", after, fd, ft, size, wantFt, len(o.ino.data)))
 			return
 		}
@@ -725,7 +750,7 @@ func (h *hist) probeFd(fd int32, after string) {
 		}
 		if suc {
 			if off := h.g.u64(offResult); off != uint64(o.off) {
-				h.violate(after+":then:fd_tell:wrong-offset", fmt.Sprintf("after %s fd_tell(%d)=%d, the model says %d", after, fd, off, o.off))
+				h.violate(sigScen(after)+":then:fd_tell:wrong-offset", fmt.Sprintf("after %s fd_tell(%d)=%d, the model says %d", after, fd, off, o.off))
 			}
 		}
 	}
@@ -737,7 +762,7 @@ func (h *hist) retagLast(after, what string) {
 	if n := len(h.res.Findings); n > 0 {
 		f := &h.res.Findings[n-1]
 		f.Detail = "[" + f.Sig + "] " + f.Detail
-		f.Sig = after + ":" + what
+		f.Sig = sigScen(after) + ":" + what
 	}
 }
 
@@ -759,6 +784,21 @@ func (h *hist) probePath(path, after string) {
 	if h.stop || path == "" {
 		return
 	}
+	stale := h.staleDir
+	h.staleDir = ""
+	defer func() { h.staleDir = stale }()
+	if stale != "" {
+		// the operation went through a descriptor of a renamed/removed directory
+		// and reported success: if its effect is not where the model puts it, it
+		// landed in whatever now has the directory's old name
+		defer func() {
+			if n := len(h.res.Findings); h.stop && n > 0 && strings.Contains(h.res.Findings[n-1].Sig, ":then:path_filestat_get:") {
+				f := &h.res.Findings[n-1]
+				f.Sig = "dirfd-stale-name:" + stale + ":" + strings.SplitN(after, ":", 2)[0] + ":effect-in-wrong-directory"
+				f.Detail += " -- the call succeeded but acted on the path the directory had when it was opened"
+			}
+		}()
+	}
 	res := h.m.resolve(h.m.root, path)
 	p, l := h.g.putPath(offPathA, path)
 	got := h.g.call("path_filestat_get", preopenFd, 0, p, l, offResult)
@@ -773,7 +813,9 @@ func (h *hist) probePath(path, after string) {
 		want = wantOK()
 	}
 	suc, ok := h.check("path_filestat_get", "probe-after:"+after, desc, got, want)
-	if !ok {
+	if !ok || (len(h.res.Findings) > 0 && strings.HasPrefix(h.res.Findings[len(h.res.Findings)-1].Sig, "path_filestat_get:probe-after:")) {
+		h.stop = true // a failing probe means the states differ, whatever the errno classes
+		h.res.Ended = "violation"
 		h.retagLast(after, "then:path_filestat_get:"+errName(got)+"-want-"+want.String())
 		return
 	}
@@ -1004,6 +1046,9 @@ func (h *hist) opPathOpen(hn *hint) {
 	o.opened = h.m.pathOf(n)
 	h.m.fds[newFd] = o
 	h.probeFd(newFd, "path_open:"+scen)
+	if create || truncate {
+		h.probePath(o.opened, "path_open:"+scen)
+	}
 	if !n.isDir {
 		h.hintf([]string{"fd_write", "fd_read", "fd_pwrite", "fd_seek"}[r.Intn(4)], newFd, "")
 	} else if r.Bool() {
@@ -1838,6 +1883,11 @@ func (h *hist) opRename(hn *hint) {
 			scen += ":open-source"
 		}
 	}
+	for _, n := range []string{src.note, dst.note} {
+		if n != "" && !strings.Contains(scen, n) {
+			scen += ":" + n
+		}
+	}
 	h.opStart("path_rename", scen)
 	p1, l1 := h.g.putPath(offPathA, src.path)
 	p2, l2 := h.g.putPath(offPathB, dst.path)
@@ -2048,7 +2098,7 @@ func (h *hist) opReaddirPass(hn *hint) {
 
 func (h *hist) finalSweep() {
 	h.res.Sweeps++
-	after := "final-sweep(last-op=" + h.lastOp + ")"
+	after := "final-sweep"
 	top := h.m.maxFd() + 3
 	for fd := int32(firstFreeFd); fd <= top && !h.stop; fd++ {
 		h.probeFd(fd, after)
@@ -2066,7 +2116,7 @@ func (h *hist) finalSweep() {
 		}
 		n := h.g.u32(offResult)
 		if int(n) != size || !bytes.Equal(h.g.read(offData, n), o.ino.data) {
-			h.violate("final-sweep:content-differs:last-op="+h.lastOp, fmt.Sprintf("fd %d: read %d bytes %x, the model says %d bytes %x", fd, n, h.g.read(offData, min(n, 64)), size, o.ino.data))
+			h.violate("final-sweep:content-differs", fmt.Sprintf("fd %d: read %d bytes %x, the model says %d bytes %x", fd, n, h.g.read(offData, min(n, 64)), size, o.ino.data))
 		}
 	}
 }
